@@ -33,8 +33,15 @@ func Encode[T any](w http.ResponseWriter, status int, v T) {
 }
 
 // DecodeValid decodes the request body into the object and then validates it.
-func DecodeValid[T Validator](r *http.Request) (T, error) {
-	var v T
+func DecodeValid[T Validator](r *http.Request) (v T, err error) {
+	// The decoders are fed untrusted bytes, e.g. msgpack panics on a repeated
+	// key of an interface typed field. That is a malformed request, not a
+	// server error.
+	defer func() {
+		if rec := recover(); rec != nil {
+			err = fmt.Errorf("decode: malformed request body: %v", rec)
+		}
+	}()
 	ctype := r.Header.Get("Content-Type")
 	switch ctype {
 	case "application/json":
